@@ -6,6 +6,9 @@ ok / fail / crash).
 -/
 import Helm.Model.Ledger
 import Helm.Lemmas.Ledger
+import Helm.Lemmas.LedgerSuccess
+import Helm.Gen.Tables
+import Helm.Spec.Skeletons
 
 namespace Helm.Props.C01
 open Helm.Ledger
@@ -135,5 +138,58 @@ example :
       [⟨1, .superseded, 7⟩, ⟨2, .superseded, 8⟩, ⟨3, .deployed, 7⟩] := by decide
 
 example : (uninstall {} {} [⟨1, .superseded, 7⟩, ⟨2, .deployed, 8⟩]).1.ledger = [] := by decide
+
+/-! ## 4. "After an operation reports success ..." for every well-formed history -/
+
+/-- A fault-free upgrade (no history limit) of ANY history with unique revisions, at most one
+deployed revision and a last revision that is not pending: it reports success; the revision it
+created is exactly one above the highest and is now the highest; it is the one and only revision
+marked deployed; the revision it built on is marked superseded; every other record is untouched;
+revisions stay unique. -/
+theorem upgrade_success_spec (fl : UpgradeFlags) (p : Nat) (l : Ledger) (lastRec cur : Rec)
+    (hdry : fl.dryRun = false) (hmax : fl.maxHistory = 0) (hnd : (revs l).Nodup) (hc : countDeployed l ≤ 1)
+    (hlast : last? l = some lastRec) (hnp : lastRec.status.isPending = false) (hcur : currentOf l = some cur) :
+    let l' := (upgrade fl {} {} p l).1.ledger
+    (upgrade fl {} {} p l).2 = .success ∧
+    (revs l').Nodup ∧ maxRev l' = maxRev l + 1 ∧
+    get? l' (maxRev l + 1) = some ⟨maxRev l + 1, .deployed, p⟩ ∧
+    countDeployed l' = 1 ∧
+    get? l' cur.rev = some { cur with status := .superseded } ∧
+    ∀ x ∈ l, x.rev ≠ cur.rev → x ∈ l' :=
+  upgrade_success_wellformed fl p l lastRec cur hdry hmax hnd hc hlast hnp hcur
+
+/-- A fault-free install on a name without history, whatever the flags. -/
+theorem install_success_spec (fl : InstallFlags) (p : Nat) (hdry : fl.dryRun = false) :
+    (install fl {} {} p []).2 = .success ∧ (install fl {} {} p []).1.ledger = [⟨1, .deployed, p⟩] :=
+  install_success fl p hdry
+
+/-- premises satisfiable: a history with a failed revision on top of the deployed one -/
+example : (upgrade {} {} {} 9 [⟨1, .superseded, 1⟩, ⟨2, .deployed, 2⟩, ⟨3, .failed, 3⟩]).1.ledger =
+    [⟨1, .superseded, 1⟩, ⟨2, .superseded, 2⟩, ⟨3, .failed, 3⟩, ⟨4, .deployed, 9⟩] := by decide
+
+/-! ## 5. The order of storage and cluster calls in the source (regenerated at every run) -/
+
+/-- The effect skeletons of the four operations are the ones the ledger model was written from:
+which storage call, cluster call, hook phase and status assignment comes after which. -/
+theorem action_skeletons_are_the_models :
+    Helm.Gen.skelInstallRun = Helm.Spec.skelInstallRun ∧
+    Helm.Gen.skelInstallPerform = Helm.Spec.skelInstallPerform ∧
+    Helm.Gen.skelInstallFail = Helm.Spec.skelInstallFail ∧
+    Helm.Gen.skelUpgradePrepare = Helm.Spec.skelUpgradePrepare ∧
+    Helm.Gen.skelUpgradePerform = Helm.Spec.skelUpgradePerform ∧
+    Helm.Gen.skelUpgradeReleasing = Helm.Spec.skelUpgradeReleasing ∧
+    Helm.Gen.skelUpgradeFail = Helm.Spec.skelUpgradeFail ∧
+    Helm.Gen.skelRollbackPrepare = Helm.Spec.skelRollbackPrepare ∧
+    Helm.Gen.skelRollbackPerform = Helm.Spec.skelRollbackPerform ∧
+    Helm.Gen.skelUninstallRun = Helm.Spec.skelUninstallRun := by decide
+
+/-- ... in particular: the revision record is stored before the operation proper starts, the
+previous revision is marked superseded only after the post-upgrade hooks, and the new one is
+marked deployed last. -/
+theorem upgrade_order_facts :
+    Helm.Spec.precedes "Releases.Create" "u.releasingUpgrade" Helm.Gen.skelUpgradePerform = true ∧
+    Helm.Spec.precedes "cfg.execHook:HookPostUpgrade" "set originalRelease StatusSuperseded" Helm.Gen.skelUpgradeReleasing = true ∧
+    Helm.Spec.precedes "set originalRelease StatusSuperseded" "set upgradedRelease StatusDeployed" Helm.Gen.skelUpgradeReleasing = true := by
+  decide
 
 end Helm.Props.C01
